@@ -41,6 +41,18 @@ class PipelineCheck(Check):
         return case
 
     def sizes(self, rng, tier):
+        """(parties, max events).  A few cases per batch are *scale* cases: hundreds of items per key, or
+        hundreds of keys, with parameters beyond CPython's small-int cache - counters, slot rings, identity
+        comparisons and buffers that only go wrong at that size are out of reach of short streams."""
+        from rxsim import program
+        program.SCALE[0] = False
+        r = rng.random()
+        if r < (0.03 if tier == 'quick' else 0.08):
+            program.SCALE[0] = True
+            return rng.choice([1, 1, 2, 3]), rng.choice([350, 600, 800])
+        if r < (0.045 if tier == 'quick' else 0.12):
+            program.SCALE[0] = rng.random() < 0.3
+            return rng.choice([260, 300]), rng.choice([600, 800])
         if tier == 'quick':
             return rng.choice([1, 2, 2, 3, 3, 4]), rng.choice([6, 12, 24])
         return rng.choice([1, 2, 3, 4, 6, 8]), rng.choice([8, 24, 60, 150])
